@@ -1,6 +1,6 @@
 SPECIFICATION Spec
 CONSTANT ScoreRange <- MC_Range3
-CHECK_DEADLOCK FALSE
+CHECK_DEADLOCK TRUE
 INVARIANT IndInv
 INVARIANT Minimal
 PROPERTY AllVisited
